@@ -9,6 +9,7 @@
 package models
 
 import (
+	"crypto/sha256"
 	"fmt"
 	"sort"
 	"strings"
@@ -448,7 +449,12 @@ func (fs *RefFs) Canon() string {
 		fmt.Fprintf(&sb, "F%d=%d/%d,", fd, id(d.ino), d.mode)
 	}
 	for i := 0; i < len(order); i++ {
-		fmt.Fprintf(&sb, "I%d:%x;", i, fs.inodes[order[i]].data)
+		d := fs.inodes[order[i]].data
+		if len(d) <= 64 {
+			fmt.Fprintf(&sb, "I%d:%x;", i, d)
+		} else {
+			fmt.Fprintf(&sb, "I%d:%d#%x;", i, len(d), sha256.Sum256(d))
+		}
 	}
 	s := sb.String()
 	fs.canon.Store(&s)
